@@ -72,6 +72,30 @@ class Interface:
                         return True
         return False
 
+    RESERVED = ('_', '_params', '_root', '_parsing', '_building', '_sizing', '_index')
+
+    def scope_keys_clauses(self, eng, st, entry):
+        """scopes created by this function keep their structural entries (_ , _params, _root, flags) through every loop:
+        members store only under their own (non-reserved) names; _index may be rewritten by repeaters"""
+        out = []
+        if 'H' not in st.ghost or 'H' not in entry.ghost:
+            return out
+        H1, D1, H0, D0 = st.ghost['H'], st.ghost['D'], entry.ghost['H'], entry.ghost['D']
+        seen = set()
+        scope = entry.env.get('context')
+        scope = entry.get(scope) if isinstance(scope, VRef) else None
+        for loc, o in entry.store.items():
+            if o is scope and isinstance(o, OContainer) and getattr(o, 'local', False) and o.addr.smt() not in seen:
+                seen.add(o.addr.smt())
+                cl = []
+                for k in self.RESERVED:
+                    if k == '_index':
+                        continue
+                    cl.append(t.eq(t.T(t.VAL, 'select', (t.T('Fields', 'select', (H1, o.addr)), S(k))), t.T(t.VAL, 'select', (t.T('Fields', 'select', (H0, o.addr)), S(k)))))
+                    cl.append(t.eq(t.T(t.BOOL, 'select', (t.T('Keys', 'select', (D1, o.addr)), S(k))), t.T(t.BOOL, 'select', (t.T('Keys', 'select', (D0, o.addr)), S(k)))))
+                out.append(('local-scope-keeps-its-structural-entries', t.and_(*cl)))
+        return out
+
     def loop_frame_clauses(self, eng, st):
         """the frame of the method under verification, as a loop invariant: the context argument differs from its entry
         value only at '_index'; the unrelated pre-existing container is unchanged"""
@@ -555,6 +579,9 @@ class Interface:
                 w = t.app('member_index', t.INT, sl, v)
                 st.assume(t.app('(_ is VStr)', t.BOOL, v))
                 st.assume(t.and_(t.le(t.ZERO, w), t.lt(w, t.app('sl_len', t.INT, sl)), t.eq(t.app('sc_name', t.VAL, t.app('sl_at', t.INT, sl, w)), v)))
+                # being a member's name, it is none of the structural scope entries (same hypothesis as in sub_attr 'name')
+                for k in self.RESERVED:
+                    st.assume(t.ne(v, t.app('VStr', t.VAL, S(k))))
         if p.pkind == 'unionfrom':
             # Union(parsefrom, ...): None, an index of a member, or the name of a member (valid parameterisation)
             sl = getattr(self, 'current_sublist', None)
@@ -720,7 +747,7 @@ class Interface:
             d = t.T('Keys', 'store', (d, S(k), t.TRUE))
         st.ghost['H'] = t.T('Heap', 'store', (H, r, fields))
         st.ghost['D'] = t.T('Dom', 'store', (D, r, d))
-        return [(st, st.alloc(OContainer(r), 'container'))]
+        return [(st, st.alloc(OContainer(r, local=True), 'container'))]
 
     def builtin(self, eng, name, args, kws, st, node):
         return None
